@@ -62,6 +62,15 @@ func (cl *Cluster) SplitAt(key []byte) bool {
 	return true
 }
 
+// RangeOf returns the raw (decoded) bounds of the region containing key (empty = unbounded).
+func (cl *Cluster) RangeOf(key []byte) (start, end []byte) {
+	region, _, _, _ := cl.C.GetRegionByKey(mocktikv.NewMvccKey(key))
+	if region == nil {
+		return nil, nil
+	}
+	return mocktikv.MvccKey(region.StartKey).Raw(), mocktikv.MvccKey(region.EndKey).Raw()
+}
+
 // MergeAt merges the region containing key with its right neighbour.
 func (cl *Cluster) MergeAt(key []byte) bool {
 	region, _, _, _ := cl.C.GetRegionByKey(mocktikv.NewMvccKey(key))
